@@ -218,7 +218,7 @@ pub fn step<const M: usize>(s: &mut Sim<M>, rep: &mut Report, p: &Profile) -> (u
                     4 => osz.saturating_sub(s.rng.below(17)),
                     5 => osz + s.rng.below(17),
                     6 => osz * 2,
-                    7 => osz + cap.saturating_sub(s.rng.below(40)),
+                    7 => osz + cap.saturating_sub(if s.rng.chance(1, 3) { 0 } else { s.rng.below(40) }),
                     8 => osz + cap + s.rng.below(40),
                     _ => pick_size(s, p),
                 }
